@@ -16,7 +16,8 @@ tvars == <<vars, l>>
 
 ToSet(s) == {s[j] : j \in 1..Len(s)}
 RouteOf(e) == [file |-> e.route.file, env |-> e.route.env, prog |-> e.route.prog, hasFile |-> e.route.hasFile,
-               ival |-> e.route.ival, ivalBy |-> e.route.ivalBy, idfile |-> e.route.idfile, entry |-> e.route.entry]
+               ival |-> e.route.ival, ivalBy |-> e.route.ivalBy, idfile |-> e.route.idfile, entry |-> e.route.entry,
+               progAt |-> e.route.progAt, other |-> e.route.other]
 
 Fail(kind, e, name) == PrintT(<<"FAIL", kind, e.t, l, e.a, name>>)
 Chk(ok, kind, e, name) == IF ok THEN TRUE ELSE Fail(kind, e, name)
